@@ -639,7 +639,24 @@ impl Executor for Session {
             Command::Meta(command) => {
                 // META is semantically read-only (§63.2), so it shares the
                 // lock with KQL rather than taking it exclusively.
-                let _guard = self.nexus.lock.read().await;
+                //
+                // `PREVIEW` is the exception as far as the lock is concerned:
+                // it runs the mutation (or import) planner as a dry run, which
+                // allocates a sequence and mints and removes `pending` shells.
+                // Under the shared lock a concurrent reader can see those
+                // shells, so a preview excludes readers exactly as the
+                // statement it previews would.
+                let previews = matches!(command, anda_kip::MetaCommand::Preview(_));
+                let _exclusive = if previews {
+                    Some(self.nexus.lock.write().await)
+                } else {
+                    None
+                };
+                let _guard = if previews {
+                    None
+                } else {
+                    Some(self.nexus.lock.read().await)
+                };
                 let authority = match self.authority(&space, &auth).await {
                     Ok(authority) => authority,
                     Err(err) => return Response::from(err),
